@@ -203,28 +203,80 @@ func vhShape(s Stack, u []any, id string) {
 				vhShape(sub, inner, id+"/nested")
 			}
 		} else if c, ok := vhCondOf(el); ok {
-			row, ok2 := u[i+1].([]any)
-			verifAssert(ok2 && len(row) == 4, id+"/condition-row")
-			if ok2 && len(row) == 4 {
-				l, _ := row[0].(string)
-				verifAssert(vhEqFold(l, "CONDITION"), id+"/condition-label")
-				kw, _ := row[1].(string)
-				verifAssert(kw == c.Keyword(), id+"/condition-keyword")
-				verifAssert(vhLeafEq(row[2], c.Operator()), id+"/condition-operator")
-				if sub, ok := vhStackOf(c.Expression()); ok {
-					inner, ok3 := row[3].([]any)
-					verifAssert(ok3, id+"/condition-stack-expanded")
-					if ok3 {
-						vhShape(sub, inner, id+"/condexpr")
-					}
-				} else if _, isC := vhCondOf(c.Expression()); !isC {
-					verifAssert(vhLeafEq(row[3], c.Expression()), id+"/condition-expression")
-				}
-			}
+			vhShapeRow(c, u[i+1], id)
 		} else {
 			verifAssert(vhLeafEq(u[i+1], el), id+"/leaf-passed-through")
 		}
 	}
+}
+
+// vhShapeRow checks that v is the CONDITION row of c: label, keyword, operator
+// and the expression - itself expanded when it is a Stack or a Condition.
+func vhShapeRow(c Condition, v any, id string) {
+	row, ok2 := v.([]any)
+	verifAssert(ok2 && len(row) == 4, id+"/condition-row")
+	if !ok2 || len(row) != 4 {
+		return
+	}
+	l, _ := row[0].(string)
+	verifAssert(vhEqFold(l, "CONDITION"), id+"/condition-label")
+	kw, _ := row[1].(string)
+	verifAssert(kw == c.Keyword(), id+"/condition-keyword")
+	verifAssert(vhLeafEq(row[2], c.Operator()), id+"/condition-operator")
+	if sub, ok := vhStackOf(c.Expression()); ok {
+		inner, ok3 := row[3].([]any)
+		verifAssert(ok3, id+"/condition-stack-expanded")
+		if ok3 {
+			vhShape(sub, inner, id+"/condexpr")
+		}
+	} else if ic, isC := vhCondOf(c.Expression()); isC {
+		// a Condition held by a Condition is expanded like any other
+		vhShapeRow(ic, row[3], id+"/condcond")
+	} else {
+		verifAssert(vhLeafEq(row[3], c.Expression()), id+"/condition-expression")
+	}
+}
+
+// vhShares reports whether the trees a and b have a Stack or Condition
+// instance in common.
+func vhShares(a, b any) bool {
+	var insts []any
+	var collect func(x any)
+	collect = func(x any) {
+		if s, ok := vhStackOf(x); ok {
+			insts = append(insts, s.stack)
+			for i := 1; i < len(*s.stack); i++ {
+				collect((*s.stack)[i])
+			}
+		} else if c, ok := vhCondOf(x); ok {
+			insts = append(insts, c.condition)
+			collect(c.Expression())
+		}
+	}
+	collect(a)
+	found := false
+	var look func(x any)
+	look = func(x any) {
+		if s, ok := vhStackOf(x); ok {
+			for _, p := range insts {
+				if q, ok := p.(*stack); ok && q == s.stack {
+					found = true
+				}
+			}
+			for i := 1; i < len(*s.stack); i++ {
+				look((*s.stack)[i])
+			}
+		} else if c, ok := vhCondOf(x); ok {
+			for _, p := range insts {
+				if q, ok := p.(*condition); ok && q == c.condition {
+					found = true
+				}
+			}
+			look(c.Expression())
+		}
+	}
+	look(b)
+	return found
 }
 
 // vhDeepEq compares two unmarshalled slices (labels case-insensitively).
@@ -277,6 +329,8 @@ func VH_C04(p []int) {
 		return
 	}
 	vhTreeSame(s, r, "tree")
+	// a reconstruction, not a second set of handles on the original's parts
+	verifAssert(!vhShares(s, r), "reconstruction-independent")
 	u2, err2 := r.Unmarshal()
 	verifAssert(err2 == nil, "unmarshal2-error")
 	verifAssert(vhDeepEq(u, u2, false), "unmarshal-of-reconstruction-deep-equal")
